@@ -73,7 +73,7 @@ _NOTES = {
  'C07': ('model build ok => boundsInv => no out-of-range table access in any search on any haystack; UTF-8 decoder never faults on valid UTF-8; leftmost re-slicing always on a boundary', 'real memory behaviour of compiled code: only exercised with std UB checks armed'),
  'C08': ('byte-wise and char-wise model builds from the same UTF-8 patterns return identical matches on every valid UTF-8 haystack (all four standard/leftmost methods incl. leftmost-first)', 'as C01'),
  'C09': ('deserialize(serialize a ++ rest) = (a, rest) for every well-formed automaton value, lawful value types; kind byte and width tables generated from the source', 'K-serial ties the byte format to the code (built automata and synthetic images)'),
- 'C10': ('insertion succeeds iff the collection is valid; invalid => documented error naming a present defect; success => valid', 'totality of the later phases (no panic on valid input) — in progress; outcome compared with the code on every generated collection'),
+ 'C10': ('both entry points, every kind/variant/num_free_blocks >= 1: model build never panics (build_total); within the size limits it succeeds iff the collection is valid (build_ok_iff) and, for `build`, every position converts (build_positions_ok_iff); invalid => documented error naming a present defect; InvalidConversion iff some position does not convert', 'outcome (Ok / error kind / panic) compared with the code on every generated collection (K-build); memory exhaustion and the u32/2^24 size limits are outside the statement'),
  'C11': ('for any two num_free_blocks values with successful model builds every search method returns identical results; num_states independent of it', 'as C01'),
  'C12': ('match end = bytes pulled, monotone single pass, exhaustion pulls |h|, for arbitrary tables', 'slice adapters are the same source in the model; compared on both entry points incl. an exact-size_hint source'),
  'C13': ('model build ok (standard) => at most 2 transitions per item, scans terminate; fail links strictly shorten; leftmost iterators return', 'real loop counter compared with the model on every scan; watchdog'),
